@@ -267,6 +267,21 @@ def armed_leaf(status, typ) -> bool:
 
 def mon_c03(ix: Index):
     out = []
+    # "if the backend never accepts the record, user code never runs past that call and the invocation never reports success":
+    # a request that was lost (fault before it was applied) - the operations it carried must not end up handled by a user except clause,
+    # and the invocation must not report SUCCEEDED
+    for f in ix.trace:
+        if f["kind"] != "api" or not f.get("fault") or f["fault"].get("when") != "before":
+            continue
+        lost = {ix.id2path.get(u["Id"]) for u in f.get("updates") or []}
+        for e in ix.by_inv.get(f["inv"], []):
+            if e["i"] > f["i"] and e["kind"] == "caught" and e.get("path") in lost:
+                out.append(V("C03", "C03/user-code-ran-past-unaccepted-record/%s" % e.get("cls"),
+                             "the call carrying the record of %s failed, the workflow caught %s with an ordinary except clause and went on" % (e["path"], e.get("cls")), e["i"]))
+        end = next((x for x in ix.by_inv.get(f["inv"], []) if x["kind"] == "inv_end_summary"), None)
+        oc = (end or {}).get("outcome")
+        if oc and oc.get("kind") == "return" and isinstance(oc.get("value"), dict) and oc["value"].get("Status") == "SUCCEEDED":
+            out.append(V("C03", "C03/success-reported-although-a-record-was-never-accepted", "invocation %d reported SUCCEEDED although API call #%s was lost" % (f["inv"], f.get("n")), end["i"]))
     for e in ix.trace:
         k = e["kind"]
         if k == "ret":
